@@ -16,18 +16,18 @@ Proof. exact precheck_sound_complete. Qed.
 Print Assumptions C07_precheck_sound_complete.
 
 (* pooled => every listed condition held and mempool.Add accepted *)
-Theorem C07_admit_sound : forall c t bal s x s',
-  admit_tx c t bal s x = (inr tt, s') -> admissible c t /\ add fixed_cfg bal s x = (ROk, s').
-Proof. exact admit_sound. Qed.
-Print Assumptions C07_admit_sound.
+Theorem C07_accept_sound : forall c t bal s x s',
+  accept_tx c t bal s x = (inr tt, s') -> admissible c t /\ add fixed_cfg bal s x = (ROk, s').
+Proof. exact accept_sound. Qed.
+Print Assumptions C07_accept_sound.
 
-(* a refused transaction leaves the pool unchanged, an admitted one keeps the C08 invariant *)
-Theorem C07_admit_pool : forall U, good_universe U -> forall c t bal s x,
+(* a refused transaction leaves the pool unchanged, an accepted one keeps the C08 invariant *)
+Theorem C07_accept_pool : forall U, good_universe U -> forall c t bal s x,
   bal_ok bal -> Inv U bal s -> U x ->
-  Inv U bal (snd (admit_tx c t bal s x))
-  /\ (forall e, fst (admit_tx c t bal s x) = inl e -> pool_eqv bal s (snd (admit_tx c t bal s x))).
-Proof. exact admit_pool. Qed.
-Print Assumptions C07_admit_pool.
+  Inv U bal (snd (accept_tx c t bal s x))
+  /\ (forall e, fst (accept_tx c t bal s x) = inl e -> pool_eqv bal s (snd (accept_tx c t bal s x))).
+Proof. exact accept_pool. Qed.
+Print Assumptions C07_accept_pool.
 
 (* the "conflict on chain" fact: the DAO's record table (newest block index per named hash and per
    (hash, signer), stub checked first) answers "has conflicts" exactly when some on-chain transaction
